@@ -138,6 +138,15 @@ def handle (case impl : List String) : Verdict :=
         v.withSpec ((irest.drop (3 * nv)).take (3 * nf) != wantF) "wellformed-face-mismatch" "faces differ from the written one-based indices minus one"
       | _ => v.withSpec true "wellformed-rejected" s!"well-formed file not accepted: {" ".intercalate (impl.take 4)}"
     | _, _, _ => bad "objw"
+  | ["objbig", _, nv] =>
+    -- implementation against itself: `ok nv 50 | ok nv 50 | ok nv 50 | 1 1`
+    let v := Verdict.ok ["objbig"]
+    let want := s!"ok {nv} 50"
+    let secs := (" ".intercalate impl).splitOn " | "
+    let v := v.withSpec (secs.getD 0 "" != want) "wellformed-rejected" s!"parse_obj on a large well-formed file: {secs.getD 0 ""}, expected {want}"
+    let v := v.withSpec (secs.getD 1 "" != want || secs.getD 2 "" != want || secs.getD 3 "" != "1 1") "read-obj-differs"
+      s!"read_obj / load_obj disagree with parse_obj on the same {nv}-vertex file: {secs.getD 1 ""} / {secs.getD 2 ""}"
+    v
   | [op, arg, hex] =>
     if op == "objr" || op == "objs" || op == "objf" || op == "objio" then
       match parseHexBytes? hex with
